@@ -176,16 +176,150 @@ def c_event_seqs(macro, ser: str, des: str) -> typing.Dict[str, str]:
     }
 
 
-def subspan_clamped(csup: str) -> bool:
+# ---- any_bitspan::subspan(): the pointer expression as a small arithmetic term over (size, offset_bytes), decided in Coq ----
+
+def _tok_expr(text: str) -> typing.List[str]:
+    toks, i = [], 0
+    pats = [(r'self\.data_\.size\(\)', 'SSize'), (r'offset_bytes\b', 'SOff'), (r'newSize\b', 'NEWSIZE'), (r'std::min\s*\(', 'MIN('), (r'0U?\b', 'SZero'),
+            (r'\(', '('), (r'\)', ')'), (r'-', '-'), (r'<', '<'), (r'\?', '?'), (r':', ':'), (r',', ',')]
+    while i < len(text):
+        if text[i].isspace():
+            i += 1
+            continue
+        for pat, name in pats:
+            m = re.compile(pat).match(text, i)
+            if m:
+                toks.append(name)
+                i = m.end()
+                break
+        else:
+            raise Closed('any_bitspan::subspan: unrecognised token at %r' % text[i:i + 30])
+    return toks
+
+
+def _parse_expr(toks: typing.List[str], newsize: typing.Optional[str]) -> str:
+    """-> Coq term of type sexp (WalkerSafeCpp.v); grammar: sub ['<' sub] ['?' expr ':' expr], sub := atom {'-' atom},
+    atom := '(' expr ')' | SSize | SOff | SZero | newSize | std::min(expr, expr)"""
+    pos = [0]
+
+    def peek():
+        return toks[pos[0]] if pos[0] < len(toks) else None
+
+    def take(t=None):
+        x = peek()
+        if x is None or (t is not None and x != t):
+            raise Closed('any_bitspan::subspan: expected %r, got %r' % (t, x))
+        pos[0] += 1
+        return x
+
+    def atom():
+        t = take()
+        if t in ('SSize', 'SOff', 'SZero'):
+            return t
+        if t == 'NEWSIZE':
+            if newsize is None:
+                raise Closed('any_bitspan::subspan: newSize used inside its own definition')
+            return newsize
+        if t == '(':
+            e = expr()
+            take(')')
+            return e
+        if t == 'MIN(':
+            a = expr()
+            take(',')
+            b = expr()
+            take(')')
+            return '(SMin %s %s)' % (a, b)
+        raise Closed('any_bitspan::subspan: unexpected token %r' % t)
+
+    def sub():
+        e = atom()
+        while peek() == '-':
+            take('-')
+            if isinstance(e, tuple):
+                raise Closed('any_bitspan::subspan: arithmetic on a comparison')
+            r = atom()
+            if isinstance(r, tuple):
+                raise Closed('any_bitspan::subspan: arithmetic on a comparison')
+            e = '(SSub %s %s)' % (e, r)
+        return e
+
+    def expr():
+        left = sub()
+        if peek() == '<':
+            take('<')
+            right = sub()
+            left = ('lt', left, right)
+        if peek() == '?':
+            if not isinstance(left, tuple):
+                raise Closed('any_bitspan::subspan: ?: without a comparison')
+            take('?')
+            t = expr()
+            take(':')
+            e = expr()
+            if isinstance(t, tuple) or isinstance(e, tuple):
+                raise Closed('any_bitspan::subspan: comparison as a value')
+            return '(SIfLt %s %s %s %s)' % (left[1], left[2], t, e)
+        return left
+
+    e = expr()
+    if pos[0] != len(toks) or isinstance(e, tuple):
+        raise Closed('any_bitspan::subspan: trailing tokens / bare comparison')
+    return e
+
+
+def _eval_sexp(term: str, size: int, off: int) -> int:
+    toks = re.findall(r'[()]|\w+', term)
+    pos = [0]
+
+    def ev():
+        t = toks[pos[0]]
+        pos[0] += 1
+        if t == '(':
+            v = ev()
+            pos[0] += 1     # ')'
+            return v
+        if t == 'SSize':
+            return size
+        if t == 'SOff':
+            return off
+        if t == 'SZero':
+            return 0
+        if t == 'SSub':
+            a, b = ev(), ev()
+            return max(a - b, 0)
+        if t == 'SMin':
+            a, b = ev(), ev()
+            return min(a, b)
+        if t == 'SIfLt':
+            a, b, x, y = ev(), ev(), ev(), ev()
+            return x if a < b else y
+        raise Closed('bad sexp token ' + t)
+    return ev()
+
+
+def subspan_ptr(csup: str) -> typing.Tuple[str, bool]:
+    """-> (Coq sexp of the byte index of the pointer subspan() hands on, with newSize inlined; whether it is min(offset_bytes, size)
+    on a grid -- the Coq side PROVES the agreement for all sizes and offsets: c04_cpp_subspan_ptr_matches_model)"""
     m = re.search(r'derived_bitspan subspan\(\{\{\s*typename_unsigned_bit_length\s*\}\} bits=0\) const noexcept\{(.*?)\n    \}', csup, flags=re.S)
     if not m:
         raise Closed('any_bitspan::subspan not found')
-    ret = re.findall(r'return derived_bitspan\(self\.data_\.data\(\)\s*\+\s*(.*?),\s*newSize,\s*offset_bits_mod\);', m.group(1))
-    if len(ret) != 1:
-        raise Closed('any_bitspan::subspan: return shape not recognised')
-    r0 = ret[0].replace(' ', '')
-    if r0 == 'offset_bytes':
-        return False
-    if r0 in ('((offset_bytes<self.data_.size())?offset_bytes:self.data_.size())', 'std::min(offset_bytes,self.data_.size())'):
-        return True
-    raise Closed('any_bitspan::subspan: pointer expression not recognised: ' + r0)
+    body = m.group(1)
+    ns = re.findall(r'newSize\s*=\s*(.*?);', body, flags=re.S)
+    ret = re.findall(r'return derived_bitspan\(self\.data_\.data\(\)\s*\+\s*(.*?),\s*newSize,\s*offset_bits_mod\);', body, flags=re.S)
+    ob = re.findall(r'offset_bytes\s*=\s*\(offset_bits\)\s*/\s*8U;', body)
+    if len(ns) != 1 or len(ret) != 1 or len(ob) != 1:
+        raise Closed('any_bitspan::subspan: shape not recognised')
+    newsize = _parse_expr(_tok_expr(ns[0]), None)
+    # the size handed on must be what is left: size - offset_bytes, or 0 beyond the end
+    for size in range(0, 7):
+        for off in range(0, 10):
+            if _eval_sexp(newsize, size, off) != max(size - off, 0):
+                raise Closed('any_bitspan::subspan: newSize is not max(size - offset_bytes, 0)')
+    ptr = _parse_expr(_tok_expr(ret[0]), newsize)
+    vals = [(_eval_sexp(ptr, size, off), size, off) for size in range(0, 7) for off in range(0, 10)]
+    if all(v == min(off, size) for v, size, off in vals):
+        return ptr, True
+    if all(v == off for v, size, off in vals):
+        return ptr, False
+    raise Closed('any_bitspan::subspan: pointer expression is neither offset_bytes nor min(offset_bytes, size): ' + ptr)
